@@ -5,7 +5,7 @@ cd /repo || exit 2
 if [ -n "$(git status --porcelain --untracked-files=no)" ]; then echo "/repo not clean"; exit 2; fi
 git apply "$P" || { echo "patch does not apply"; exit 2; }
 for c in "$@"; do
-  /verif/check $c > /tmp/try_mutant.$c.out 2>&1; rc=$?
+  VERIF_EVIDENCE_DIR=/tmp/try-mutant-evidence /verif/check $c > /tmp/try_mutant.$c.out 2>&1; rc=$?
   echo "== $c exit=$rc: $(grep -c '^VIOLATION' /tmp/try_mutant.$c.out) violations"
   grep -A1 '^VIOLATION' /tmp/try_mutant.$c.out | grep -v '^--' | grep -v '^VIOLATION' | cut -c1-300 | head -8
 done
